@@ -315,3 +315,17 @@ package forkexec
 //@   ensures @C10 S.cb_calls == old(S.cb_calls) ==> P.st == old(P.st)
 //@   ensures @C10 S.cb_calls == old(S.cb_calls) + 1 && old(P.st) == 2 ==> (result.1 == nil ==> P.st == 5) && (result.1 != nil ==> P.st == 4 || P.st == 5 || P.st == 9)
 //@   ensures @C10 S.cb_calls == old(S.cb_calls) + 1 && old(P.st) != 2 ==> P.st == old(P.st)
+
+// C07 "the error names the failing step": the name table has one entry per location constant (proved on the
+// package initialiser, no store elsewhere), String never indexes outside it, and the names the callers and
+// the documentation rely on sit at their own location numbers (a shifted or shortened table fails here)
+//@ global pkg/forkexec.locToString props C07: invariant len(locToString) == 33 && locToString[1] == "clone" && locToString[3] == "unshare_user_read" && locToString[16] == "mount" && locToString[18] == "pivot_root" && locToString[23] == "setrlimt" && locToString[29] == "seccomp" && locToString[30] == "sync_write" && locToString[31] == "sync_read" && locToString[32] == "execve"
+//@ func pkg/forkexec.(ErrorLocation).String props C07
+//@   arith int
+//@   assigns nothing
+//@   ensures 1 <= int(e) && int(e) <= 32 ==> result == locToString[int(e)]
+//@   ensures int(e) == 32 ==> result == "execve"
+//@   ensures int(e) == 16 ==> result == "mount"
+//@   ensures int(e) == 23 ==> result == "setrlimt"
+//@   ensures int(e) == 3 ==> result == "unshare_user_read"
+//@   ensures !(1 <= int(e) && int(e) <= 32) ==> result == "unknown"
